@@ -177,7 +177,7 @@ def nested_shape(x):
 def gen_poly(rng):
     kind = gen.choice(rng, ["int", "float", "complex", "bool", "pm1"], p=[.35, .2, .2, .1, .15])
     names = sorted(int(x) for x in rng.choice(range(13), size=int(rng.integers(1, 4)), replace=False))
-    shape = gen.choice(rng, [(), (), (2,), (3,), (2, 2), (1, 2)])
+    shape = gen.choice(rng, [(), (), (2,), (3,), (2, 2), (1, 2), (2, 3), (3, 2), (2, 1, 2)])
     base = gen.gen_struct(rng, names=names, shape=shape, kind={"bool": "int", "pm1": "int"}.get(kind, kind),
                           nterms=int(rng.integers(0, 6)), maxexp=3, lim=3)
     if kind == "pm1":
@@ -187,7 +187,8 @@ def gen_poly(rng):
         for t in base["terms"]:
             t[1] = [int(rng.integers(0, 2)) for _ in t[1]]
         base["dtype"] = "bool"
-    base["as"] = "poly"
+    # non-contiguous views (p.T) print like any other array of their shape
+    base["as"] = "poly_T" if len(shape) >= 2 and rng.random() < .4 else "poly"
     return base
 
 
@@ -196,7 +197,7 @@ def elem_den(d, i):
 
 
 def check(ctx, s, opts, drv, pending):
-    p = gen.materialize(s)
+    p = gen.materialize(s, s.get("as", "poly"))
     size = int(numpy.prod(s["shape"], dtype=int))
     case = {"kind": "c16", "a": s, "opts": opts}
     tags = [f"dtype:{s['dtype']}"] + [f"{k}={v}" for k, v in opts.items()]
